@@ -40,7 +40,15 @@ impl Rec {
         let inner = if tk == 0 { Inner::V0(RandomOracle::domain(dom)) } else { Inner::V1(TranscriptProtocolV1::with_domain(dom)) };
         Rec { inner, log: Vec::new() }
     }
-    fn chal(&self) -> J { json!(self.log.iter().map(|(l, s)| json!([l, s])).collect::<Vec<_>>()) }
+    /// recorded challenges, followed by ["#post", H(transcript state now)]
+    fn chal(&self) -> J {
+        let mut v: Vec<J> = self.log.iter().map(|(l, s)| json!([l, s])).collect();
+        v.push(json!(["#post", hex(self.extract_raw_challenge().as_ref())]));
+        json!(v)
+    }
+    fn us(&self) -> Vec<Fr> {
+        self.log.iter().filter(|(l, _)| l == "uj").map(|(_, s)| Fr::deserial(&mut Cursor::new(unhex(s))).unwrap()).collect()
+    }
 }
 impl TranscriptProtocol for Rec {
     fn append_label(&mut self, label: impl AsRef<[u8]>) {
@@ -250,6 +258,12 @@ fn range_case(r: &mut Rng, aux: &mut StdRng, id: u64, n: u64, m: u64, full: bool
             o.insert("pch".into(), t.chal());
             o.insert("proof".into(), json!(hex(&bytes)));
             o.insert("V".into(), json!(coms.iter().map(|c| ph(&c.0)).collect::<Vec<_>>()));
+            o.insert("dom".into(), json!(dom));
+            o.insert("kp".into(), json!(hex(&to_bytes(&pr.keys))));
+            if v == 2 {
+                o.insert("Gp".into(), json!(gens_nm.G_H.iter().map(|x| ph(&x.0)).collect::<Vec<_>>()));
+                o.insert("Hp".into(), json!(gens_nm.G_H.iter().map(|x| ph(&x.1)).collect::<Vec<_>>()));
+            }
             let vf = |bs: &[u8]| rp_verify(bs, v, tk, dom, n as u8, &coms, &gens_nm, &pr.keys);
             let (verdict, vch) = vf(&bytes);
             o.insert("verify".into(), json!(verdict)); o.insert("vch".into(), vch);
@@ -506,6 +520,12 @@ fn set_case(r: &mut Rng, aux: &mut StdRng, id: u64, member: bool, set_u: &[u64],
             m.insert("b".into(), json!(sh(&pr.b))); m.insert("bt".into(), json!(sh(&pr.bt)));
             m.insert("r".into(), json!(sh(&rv))); m.insert("draws".into(), shs(&draws));
             m.insert("pch".into(), t.chal()); m.insert("proof".into(), json!(hex(&bytes)));
+            m.insert("dom".into(), json!(dom)); m.insert("kp".into(), json!(hex(&to_bytes(&pr.keys))));
+            m.insert("Vc".into(), json!(ph(&com.0)));
+            if v == 2 {
+                m.insert("Gp".into(), json!(gens.G_H.iter().map(|x| ph(&x.0)).collect::<Vec<_>>()));
+                m.insert("Hp".into(), json!(gens.G_H.iter().map(|x| ph(&x.1)).collect::<Vec<_>>()));
+            }
             let vf = |bs: &[u8]| set_verify(member, bs, v, tk, dom, &set, &com, &gens, &pr.keys);
             let (verdict, vch) = vf(&bytes);
             m.insert("verify".into(), json!(verdict)); m.insert("vch".into(), vch);
@@ -643,6 +663,318 @@ fn ipa(seed: u64, count: u64) {
     }
 }
 
+
+// ------------------------------------------------------------------ attack corpus: adaptive forgers
+// Each forger assumes that ONE prover message is not bound by the challenges that follow it: it
+// simulates the transcript with a placeholder in that position (the previous message repeated, the
+// shape of the classic "appended the wrong variable" mistake), reads the challenges, and then SOLVES
+// the verification equations for the unbound message.  The forgery satisfies both verifier equations
+// under the simulated challenges (self-checked below with real curve arithmetic) for a FALSE statement
+// (out-of-range value / no known opening).  The real verifier must reject every one of them.
+fn finv(a: &Fr) -> Fr { a.inverse().expect("nonzero") }
+fn powers(z: &Fr, n: usize) -> Vec<Fr> { let mut v = Vec::with_capacity(n); let mut c = fr(1); for _ in 0..n { v.push(c); c = fmul(&c, z); } v }
+fn dotf(a: &[Fr], b: &[Fr]) -> Fr { a.iter().zip(b.iter()).fold(fr(0), |acc, (x, y)| fadd(&acc, &fmul(x, y))) }
+fn mexp(ps: &[G1], ss: &[Fr]) -> G1 { assert_eq!(ps.len(), ss.len()); multiexp::<G1, G1>(ps, ss) }
+fn rnd(aux: &mut StdRng) -> Fr { G1::generate_non_zero_scalar(aux) }
+/// s_i = prod_j u_j^(+1 if bit (k-1-j) of i is set else -1)
+fn svec_rec(us: &[Fr]) -> Vec<Fr> {
+    let mut s = vec![fr(1)];
+    for u in us.iter().rev() {
+        let ui = finv(u);
+        let mut t: Vec<Fr> = s.iter().map(|x| fmul(x, &ui)).collect();
+        t.extend(s.iter().map(|x| fmul(x, u)));
+        s = t;
+    }
+    s
+}
+
+struct Forge { n: u64, m: u64, ver: u64, tk: u64, pr: Params, G: Vec<G1>, H: Vec<G1>, vals: Vec<Fr>, rs: Vec<Fr>, coms: Vec<Commitment<G1>>, aL: Vec<Fr> }
+const FDOM: &str = "c11-forge";
+impl Forge {
+    fn new(r: &mut Rng, aux: &mut StdRng, n: u64, m: u64, id: u64) -> Forge {
+        let nm = (n * m) as usize;
+        let pr = params(aux, nm);
+        let G: Vec<G1> = pr.gens.G_H.iter().map(|x| x.0).collect();
+        let H: Vec<G1> = pr.gens.G_H.iter().map(|x| x.1).collect();
+        // values: low parts c_j, the value of block `bad` is c + 2^n (outside [0,2^n)); a_L = bits of c_j with
+        // the top entry of the bad block increased by 2, so that <a_L_j, 2^n> = v_j but a_L is not a bit vector
+        let bad = r.below(m) as usize;
+        let two_n = fr(2).pow([n]);
+        let mut vals = Vec::new(); let mut aL = Vec::new();
+        for j in 0..m as usize {
+            let c = pick_value(r, n);
+            for i in 0..n { aL.push(if c & (1u64 << i) != 0 { fr(1) } else { fr(0) }); }
+            if j == bad { let last = aL.len() - 1; aL[last] = fadd(&aL[last], &fr(2)); vals.push(fadd(&fr(c), &two_n)); } else { vals.push(fr(c)); }
+        }
+        let rs: Vec<Fr> = (0..m).map(|_| G1::generate_scalar(aux)).collect();
+        let coms = vals.iter().zip(rs.iter()).map(|(v, rr)| pr.keys.hide(&Value::<G1>::new(*v), &Randomness::new(*rr))).collect();
+        Forge { n, m, ver: 1 + id % 2, tk: (id / 2) % 2, pr, G, H, vals, rs, coms, aL }
+    }
+    fn prelude(&self, t: &mut Rec) {
+        if self.ver == 2 {
+            t.append_message(b"G", &self.G); t.append_message(b"H", &self.H);
+            t.append_message(b"v_keys", &self.pr.keys); t.append_message(b"n", &(self.n as u8));
+        }
+        for V in &self.coms { t.append_message(b"Vj", &V.0); }
+    }
+    fn nm(&self) -> usize { (self.n * self.m) as usize }
+    /// e_i = z^(2 + i/n) 2^(i mod n)
+    fn e_vec(&self, z: &Fr) -> Vec<Fr> {
+        let zp = powers(z, self.m as usize + 3); let two = powers(&fr(2), self.n as usize);
+        (0..self.nm()).map(|i| fmul(&zp[2 + i / self.n as usize], &two[i % self.n as usize])).collect()
+    }
+    fn delta(&self, y: &Fr, z: &Fr) -> Fr {
+        let sy = powers(y, self.nm()).iter().fold(fr(0), |a, b| fadd(&a, b));
+        let s2 = powers(&fr(2), self.n as usize).iter().fold(fr(0), |a, b| fadd(&a, b));
+        let zp = powers(z, self.m as usize + 3);
+        let sz = (0..self.m as usize).fold(fr(0), |a, j| fadd(&a, &zp[j + 3]));
+        fsub(&fmul(&fsub(z, &fmul(z, z)), &sy), &fmul(&sz, &s2))
+    }
+    fn zweights(&self, z: &Fr) -> Vec<Fr> { let zp = powers(z, self.m as usize + 2); (0..self.m as usize).map(|j| zp[j + 2]).collect() }
+    /// t_0 the verifier's first equation asks for:  sum z^(j+2) v_j + delta
+    fn target_t0(&self, y: &Fr, z: &Fr) -> Fr { fadd(&dotf(&self.zweights(z), &self.vals), &self.delta(y, z)) }
+    fn cvr(&self, z: &Fr) -> Fr { dotf(&self.zweights(z), &self.rs) }
+    fn vterm(&self, z: &Fr) -> G1 { let cs: Vec<G1> = self.coms.iter().map(|c| c.0).collect(); mexp(&cs, &self.zweights(z)) }
+    fn e_h(&self, y: &Fr, z: &Fr) -> Vec<Fr> {
+        let yi = powers(&finv(y), self.nm()); let e = self.e_vec(z);
+        (0..self.nm()).map(|i| fadd(z, &fmul(&yi[i], &e[i]))).collect()
+    }
+    /// both verifier equations with the given challenges (real curve arithmetic, textbook form)
+    fn eqs_hold(&self, p: &Parts, y: &Fr, z: &Fr, x: &Fr, w: &Fr, us: &[Fr]) -> (bool, bool) {
+        let (B, Bt) = (self.pr.keys.g, self.pr.keys.h);
+        let (A, S, T1, T2) = (p.pts[0], p.pts[1], p.pts[2], p.pts[3]);
+        let (tx, txt, et) = (p.scs[0], p.scs[1], p.scs[2]);
+        let lhs1 = mexp(&[B, Bt], &[tx, txt]);
+        let rhs1 = self.vterm(z).plus_point(&mexp(&[B, T1, T2], &[self.delta(y, z), *x, fmul(x, x)]));
+        let nm = self.nm();
+        if us.len() != p.lr.len() || (1usize << us.len()) != nm { return (lhs1 == rhs1, false); }
+        let Q = B.mul_by_scalar(w);
+        let mut bases: Vec<G1> = self.G.clone(); bases.extend(self.H.iter()); bases.extend([Q, Bt, A, S]);
+        let mut exps: Vec<Fr> = vec![fneg(z); nm]; exps.extend(self.e_h(y, z)); exps.extend([tx, fneg(&et), fr(1), *x]);
+        let mut lhs2 = mexp(&bases, &exps);
+        for (j, (l, r)) in p.lr.iter().enumerate() {
+            let ui = finv(&us[j]);
+            lhs2 = lhs2.plus_point(&mexp(&[*l, *r], &[fmul(&us[j], &us[j]), fmul(&ui, &ui)]));
+        }
+        let s = svec_rec(us); let yi = powers(&finv(y), nm);
+        let mut b2: Vec<G1> = self.G.clone(); b2.extend(self.H.iter()); b2.push(Q);
+        let mut e2: Vec<Fr> = s.iter().map(|si| fmul(&p.a, si)).collect();
+        e2.extend((0..nm).map(|i| fmul(&p.b, &fmul(&s[nm - 1 - i], &yi[i]))));
+        e2.push(fmul(&p.a, &p.b));
+        (lhs1 == rhs1, lhs2 == mexp(&b2, &e2))
+    }
+    fn verify_real(&self, p: &Parts) -> String {
+        rp_verify(&p.build(), self.ver, self.tk, FDOM, self.n as u8, &self.coms, &self.pr.gens, &self.pr.keys).0
+    }
+    /// r_0, r_1 and l_0 for given a_L, a_R, s_R
+    fn lr_coeffs(&self, aL: &[Fr], aR: &[Fr], sR: &[Fr], y: &Fr, z: &Fr) -> (Vec<Fr>, Vec<Fr>, Vec<Fr>) {
+        let yp = powers(y, self.nm()); let e = self.e_vec(z);
+        let l0: Vec<Fr> = aL.iter().map(|a| fsub(a, z)).collect();
+        let r0: Vec<Fr> = (0..self.nm()).map(|i| fadd(&fmul(&yp[i], &fadd(&aR[i], z)), &e[i])).collect();
+        let r1: Vec<Fr> = (0..self.nm()).map(|i| fmul(&yp[i], &sR[i])).collect();
+        (l0, r0, r1)
+    }
+}
+
+fn report(kind: &str, f: &Forge, p: &Parts, sim: (bool, bool)) {
+    let real = f.verify_real(p);
+    println!("{}", json!({"k": "forge", "kind": kind, "n": f.n, "m": f.m, "ver": f.ver, "tk": f.tk,
+        "valid_under_simulated_challenges": sim.0 && sim.1, "eqs": [sim.0, sim.1], "verify": real, "proof": hex(&p.build())}));
+}
+
+/// last R_j of the inner-product argument not bound (challenges computed with L_j in its place)
+fn forge_last_r(f: &Forge, aux: &mut StdRng) {
+    let (B, Bt) = (f.pr.keys.g, f.pr.keys.h);
+    let nm = f.nm(); let k = nm.trailing_zeros() as usize;
+    let mut t = Rec::new(f.tk, FDOM); f.prelude(&mut t);
+    let (A, S) = (pmul(&rnd(aux)), pmul(&rnd(aux)));   // no known opening at all
+    t.append_message(b"A", &A); t.append_message(b"S", &S);
+    let y: Fr = t.extract_challenge_scalar::<G1>(b"y"); let z: Fr = t.extract_challenge_scalar::<G1>(b"z");
+    let (t1, t1t, t2, t2t) = (rnd(aux), rnd(aux), rnd(aux), rnd(aux));
+    let (T1, T2) = (mexp(&[B, Bt], &[t1, t1t]), mexp(&[B, Bt], &[t2, t2t]));
+    t.append_message(b"T1", &T1); t.append_message(b"T2", &T2);
+    let x: Fr = t.extract_challenge_scalar::<G1>(b"x"); let xx = fmul(&x, &x);
+    let tx = fadd(&f.target_t0(&y, &z), &fadd(&fmul(&t1, &x), &fmul(&t2, &xx)));
+    let txt = fadd(&f.cvr(&z), &fadd(&fmul(&t1t, &x), &fmul(&t2t, &xx)));
+    let et = rnd(aux);
+    t.append_message(b"tx", &tx); t.append_message(b"tx_tilde", &txt); t.append_message(b"e_tilde", &et);
+    let w: Fr = t.extract_challenge_scalar::<G1>(b"w");
+    let Q = B.mul_by_scalar(&w);
+    let Ls: Vec<G1> = (0..k).map(|_| pmul(&rnd(aux))).collect();
+    let mut Rs: Vec<G1> = (0..k).map(|_| pmul(&rnd(aux))).collect();
+    let (a, b) = (rnd(aux), rnd(aux));
+    let mut us = Vec::new();
+    for j in 0..k { t.append_message(b"Lj", &Ls[j]); t.append_message(b"Rj", &Ls[j]); us.push(t.extract_challenge_scalar::<G1>(b"uj")); }
+    // solve  P' + sum u^2 L + u^-2 R = a<s,G> + b<s^-1 o y^-i,H> + ab Q  for the last R
+    let mut bases: Vec<G1> = f.G.clone(); bases.extend(f.H.iter()); bases.extend([Q, Bt, A, S]);
+    let mut exps: Vec<Fr> = vec![fneg(&z); nm]; exps.extend(f.e_h(&y, &z)); exps.extend([tx, fneg(&et), fr(1), x]);
+    let mut acc = mexp(&bases, &exps);
+    for j in 0..k { acc = acc.plus_point(&Ls[j].mul_by_scalar(&fmul(&us[j], &us[j])));
+        if j + 1 < k { let ui = finv(&us[j]); acc = acc.plus_point(&Rs[j].mul_by_scalar(&fmul(&ui, &ui))); } }
+    let s = svec_rec(&us); let yi = powers(&finv(&y), nm);
+    let mut b2: Vec<G1> = f.G.clone(); b2.extend(f.H.iter()); b2.push(Q);
+    let mut e2: Vec<Fr> = s.iter().map(|si| fmul(&a, si)).collect();
+    e2.extend((0..nm).map(|i| fmul(&b, &fmul(&s[nm - 1 - i], &yi[i])))); e2.push(fmul(&a, &b));
+    let rhs = mexp(&b2, &e2);
+    let ul = us[k - 1];
+    Rs[k - 1] = rhs.minus_point(&acc).mul_by_scalar(&fmul(&ul, &ul));
+    let p = Parts { pts: vec![A, S, T1, T2], scs: vec![tx, txt, et], lr: Ls.iter().cloned().zip(Rs.iter().cloned()).collect(), a, b };
+    let sim = f.eqs_hold(&p, &y, &z, &x, &w, &us);
+    report("ipa_last_R_unbound", f, &p, sim);
+}
+
+/// honest inner-product argument on (l, r) continuing transcript t
+fn honest_ipa(f: &Forge, t: &mut Rec, y: &Fr, w: &Fr, l: &[Fr], r: &[Fr]) -> ipp::InnerProductProof<G1> {
+    let Q = f.pr.keys.g.mul_by_scalar(w);
+    let hps = powers(&finv(y), f.nm());
+    ipp::prove_inner_product_with_scalars(t, &f.G, &f.H, &hps, &Q, l, r).expect("ipa")
+}
+
+/// T_2 not bound by x: out-of-range value, honest l(x), r(x); T_2 solved from the first equation
+fn forge_t2(f: &Forge, aux: &mut StdRng) {
+    let (B, Bt) = (f.pr.keys.g, f.pr.keys.h); let nm = f.nm();
+    let aL = f.aL.clone(); let aR: Vec<Fr> = aL.iter().map(|a| fsub(a, &fr(1))).collect();
+    let sL: Vec<Fr> = (0..nm).map(|_| rnd(aux)).collect(); let sR: Vec<Fr> = (0..nm).map(|_| rnd(aux)).collect();
+    let (at, st) = (rnd(aux), rnd(aux));
+    let A = mexp(&f.G, &aL).plus_point(&mexp(&f.H, &aR)).plus_point(&Bt.mul_by_scalar(&at));
+    let S = mexp(&f.G, &sL).plus_point(&mexp(&f.H, &sR)).plus_point(&Bt.mul_by_scalar(&st));
+    let mut t = Rec::new(f.tk, FDOM); f.prelude(&mut t);
+    t.append_message(b"A", &A); t.append_message(b"S", &S);
+    let y: Fr = t.extract_challenge_scalar::<G1>(b"y"); let z: Fr = t.extract_challenge_scalar::<G1>(b"z");
+    let (l0, r0, r1) = f.lr_coeffs(&aL, &aR, &sR, &y, &z);
+    let (t0, t2) = (dotf(&l0, &r0), dotf(&sL, &r1)); let t1 = fadd(&dotf(&l0, &r1), &dotf(&sL, &r0));
+    let (t1t, t2t) = (rnd(aux), rnd(aux));
+    let T1 = mexp(&[B, Bt], &[t1, t1t]);
+    t.append_message(b"T1", &T1); t.append_message(b"T2", &T1);   // placeholder in T2's position
+    let x: Fr = t.extract_challenge_scalar::<G1>(b"x"); let xx = fmul(&x, &x);
+    let tx = fadd(&t0, &fadd(&fmul(&t1, &x), &fmul(&t2, &xx)));
+    let txt = fadd(&f.cvr(&z), &fadd(&fmul(&t1t, &x), &fmul(&t2t, &xx)));
+    // x^2 T2 = tx B + txt Bt - Vterm - delta B - x T1
+    let num = mexp(&[B, Bt, T1], &[fsub(&tx, &f.delta(&y, &z)), txt, fneg(&x)]).minus_point(&f.vterm(&z));
+    let T2 = num.mul_by_scalar(&finv(&xx));
+    let et = fadd(&at, &fmul(&st, &x));
+    t.append_message(b"tx", &tx); t.append_message(b"tx_tilde", &txt); t.append_message(b"e_tilde", &et);
+    let w: Fr = t.extract_challenge_scalar::<G1>(b"w");
+    let l: Vec<Fr> = (0..nm).map(|i| fadd(&l0[i], &fmul(&x, &sL[i]))).collect();
+    let r: Vec<Fr> = (0..nm).map(|i| fadd(&r0[i], &fmul(&x, &r1[i]))).collect();
+    let ip = honest_ipa(f, &mut t, &y, &w, &l, &r);
+    let p = Parts { pts: vec![A, S, T1, T2], scs: vec![tx, txt, et], lr: ip.lr_vec.clone(), a: ip.a, b: ip.b };
+    let sim = f.eqs_hold(&p, &y, &z, &x, &w, &t.us());
+    report("T2_unbound", f, &p, sim);
+}
+
+/// A not bound by y, z: a_R adjusted after seeing y, z so that t_0 has the value the verifier expects
+fn forge_a(f: &Forge, aux: &mut StdRng) {
+    let (B, Bt) = (f.pr.keys.g, f.pr.keys.h); let nm = f.nm();
+    let sL: Vec<Fr> = (0..nm).map(|_| rnd(aux)).collect(); let sR: Vec<Fr> = (0..nm).map(|_| rnd(aux)).collect();
+    let (at, st) = (rnd(aux), rnd(aux));
+    let S = mexp(&f.G, &sL).plus_point(&mexp(&f.H, &sR)).plus_point(&Bt.mul_by_scalar(&st));
+    let mut t = Rec::new(f.tk, FDOM); f.prelude(&mut t);
+    t.append_message(b"A", &S); t.append_message(b"S", &S);   // placeholder in A's position
+    let y: Fr = t.extract_challenge_scalar::<G1>(b"y"); let z: Fr = t.extract_challenge_scalar::<G1>(b"z");
+    let aL = f.aL.clone(); let mut aR: Vec<Fr> = aL.iter().map(|a| fsub(a, &fr(1))).collect();
+    let (l0, r0, _) = f.lr_coeffs(&aL, &aR, &sR, &y, &z);
+    let d = fmul(&fsub(&f.target_t0(&y, &z), &dotf(&l0, &r0)), &finv(&l0[0]));   // y^0 = 1
+    aR[0] = fadd(&aR[0], &d);
+    let A = mexp(&f.G, &aL).plus_point(&mexp(&f.H, &aR)).plus_point(&Bt.mul_by_scalar(&at));
+    let (l0, r0, r1) = f.lr_coeffs(&aL, &aR, &sR, &y, &z);
+    let (t0, t2) = (dotf(&l0, &r0), dotf(&sL, &r1)); let t1 = fadd(&dotf(&l0, &r1), &dotf(&sL, &r0));
+    let (t1t, t2t) = (rnd(aux), rnd(aux));
+    let (T1, T2) = (mexp(&[B, Bt], &[t1, t1t]), mexp(&[B, Bt], &[t2, t2t]));
+    t.append_message(b"T1", &T1); t.append_message(b"T2", &T2);
+    let x: Fr = t.extract_challenge_scalar::<G1>(b"x"); let xx = fmul(&x, &x);
+    let tx = fadd(&t0, &fadd(&fmul(&t1, &x), &fmul(&t2, &xx)));
+    let txt = fadd(&f.cvr(&z), &fadd(&fmul(&t1t, &x), &fmul(&t2t, &xx)));
+    let et = fadd(&at, &fmul(&st, &x));
+    t.append_message(b"tx", &tx); t.append_message(b"tx_tilde", &txt); t.append_message(b"e_tilde", &et);
+    let w: Fr = t.extract_challenge_scalar::<G1>(b"w");
+    let l: Vec<Fr> = (0..nm).map(|i| fadd(&l0[i], &fmul(&x, &sL[i]))).collect();
+    let r: Vec<Fr> = (0..nm).map(|i| fadd(&r0[i], &fmul(&x, &r1[i]))).collect();
+    let ip = honest_ipa(f, &mut t, &y, &w, &l, &r);
+    let p = Parts { pts: vec![A, S, T1, T2], scs: vec![tx, txt, et], lr: ip.lr_vec.clone(), a: ip.a, b: ip.b };
+    let sim = f.eqs_hold(&p, &y, &z, &x, &w, &t.us());
+    report("A_unbound", f, &p, sim);
+}
+
+/// S not bound at all: arbitrary l, r with <l,r> = t_x, S solved from the second equation
+fn forge_s(f: &Forge, aux: &mut StdRng) {
+    let (B, Bt) = (f.pr.keys.g, f.pr.keys.h); let nm = f.nm();
+    let A = pmul(&rnd(aux));
+    let mut t = Rec::new(f.tk, FDOM); f.prelude(&mut t);
+    t.append_message(b"A", &A); t.append_message(b"S", &A);   // placeholder in S's position
+    let y: Fr = t.extract_challenge_scalar::<G1>(b"y"); let z: Fr = t.extract_challenge_scalar::<G1>(b"z");
+    let (t1, t1t, t2, t2t) = (rnd(aux), rnd(aux), rnd(aux), rnd(aux));
+    let (T1, T2) = (mexp(&[B, Bt], &[t1, t1t]), mexp(&[B, Bt], &[t2, t2t]));
+    t.append_message(b"T1", &T1); t.append_message(b"T2", &T2);
+    let x: Fr = t.extract_challenge_scalar::<G1>(b"x"); let xx = fmul(&x, &x);
+    let tx = fadd(&f.target_t0(&y, &z), &fadd(&fmul(&t1, &x), &fmul(&t2, &xx)));
+    let txt = fadd(&f.cvr(&z), &fadd(&fmul(&t1t, &x), &fmul(&t2t, &xx)));
+    let et = rnd(aux);
+    t.append_message(b"tx", &tx); t.append_message(b"tx_tilde", &txt); t.append_message(b"e_tilde", &et);
+    let w: Fr = t.extract_challenge_scalar::<G1>(b"w");
+    let l: Vec<Fr> = (0..nm).map(|_| rnd(aux)).collect(); let mut r: Vec<Fr> = (0..nm).map(|_| rnd(aux)).collect();
+    r[0] = fmul(&fsub(&tx, &dotf(&l[1..], &r[1..])), &finv(&l[0]));
+    // x S = <l + z, G> + <r o y^-i - eH, H> + et Bt - A
+    let yi = powers(&finv(&y), nm); let eh = f.e_h(&y, &z);
+    let ge: Vec<Fr> = l.iter().map(|li| fadd(li, &z)).collect();
+    let he: Vec<Fr> = (0..nm).map(|i| fsub(&fmul(&r[i], &yi[i]), &eh[i])).collect();
+    let S = mexp(&f.G, &ge).plus_point(&mexp(&f.H, &he)).plus_point(&Bt.mul_by_scalar(&et)).minus_point(&A).mul_by_scalar(&finv(&x));
+    let ip = honest_ipa(f, &mut t, &y, &w, &l, &r);
+    let p = Parts { pts: vec![A, S, T1, T2], scs: vec![tx, txt, et], lr: ip.lr_vec.clone(), a: ip.a, b: ip.b };
+    let sim = f.eqs_hold(&p, &y, &z, &x, &w, &t.us());
+    report("S_unbound", f, &p, sim);
+}
+
+/// the inner-product argument alone: a proof for a random P' with no known opening
+fn forge_ipa_alone(r: &mut Rng, aux: &mut StdRng, n: usize, id: u64) {
+    let _ = r;
+    let tk = id % 2; let k = n.trailing_zeros() as usize;
+    let G: Vec<G1> = (0..n).map(|_| pmul(&rnd(aux))).collect(); let H: Vec<G1> = (0..n).map(|_| pmul(&rnd(aux))).collect();
+    let Q = pmul(&rnd(aux)); let Pp = pmul(&rnd(aux));
+    let Ls: Vec<G1> = (0..k).map(|_| pmul(&rnd(aux))).collect(); let mut Rs: Vec<G1> = (0..k).map(|_| pmul(&rnd(aux))).collect();
+    let (a, b) = (rnd(aux), rnd(aux));
+    let mut t = Rec::new(tk, "c11-forge-ipa");
+    let mut us: Vec<Fr> = Vec::new();
+    for j in 0..k { t.append_message(b"Lj", &Ls[j]); t.append_message(b"Rj", &Ls[j]); us.push(t.extract_challenge_scalar::<G1>(b"uj")); }
+    let mut acc = Pp;
+    for j in 0..k { acc = acc.plus_point(&Ls[j].mul_by_scalar(&fmul(&us[j], &us[j])));
+        if j + 1 < k { let ui = finv(&us[j]); acc = acc.plus_point(&Rs[j].mul_by_scalar(&fmul(&ui, &ui))); } }
+    let s = svec_rec(&us);
+    let mut bases = G.clone(); bases.extend(H.iter()); bases.push(Q);
+    let mut exps: Vec<Fr> = s.iter().map(|si| fmul(&a, si)).collect();
+    exps.extend((0..n).map(|i| fmul(&b, &s[n - 1 - i]))); exps.push(fmul(&a, &b));
+    let rhs = mexp(&bases, &exps);
+    let ul = us[k - 1];
+    Rs[k - 1] = rhs.minus_point(&acc).mul_by_scalar(&fmul(&ul, &ul));
+    // self check under the simulated challenges
+    let mut lhs = Pp;
+    for j in 0..k { let ui = finv(&us[j]); lhs = lhs.plus_point(&mexp(&[Ls[j], Rs[j]], &[fmul(&us[j], &us[j]), fmul(&ui, &ui)])); }
+    let proof = ipp::InnerProductProof::<G1> { lr_vec: Ls.iter().cloned().zip(Rs.iter().cloned()).collect(), a, b };
+    let mut t2 = Rec::new(tk, "c11-forge-ipa");
+    let real = match guarded(|| ipp::verify_inner_product(&mut t2, &G, &H, &Pp, &Q, &proof)) { Ok(true) => "Ok", Ok(false) => "Rejected", Err(_) => "PANIC" };
+    println!("{}", json!({"k": "forge", "kind": "ipa_alone_last_R_unbound", "n": n, "m": 1, "ver": 0, "tk": tk,
+        "valid_under_simulated_challenges": lhs == rhs, "verify": real}));
+}
+
+fn attacks(seed: u64, count: u64) {
+    let mut r = Rng::new(seed ^ 0xF0E);
+    let mut aux = StdRng::seed_from_u64(r.next());
+    let shapes: [(u64, u64); 7] = [(2, 1), (4, 1), (8, 1), (8, 2), (16, 2), (32, 1), (64, 1)];
+    let mut id = 0;
+    for rep in 0..count {
+        for &(n, m) in shapes.iter() {
+            if rep > 0 && n * m > 16 { continue; }
+            for kind in 0..4 {
+                let f = Forge::new(&mut r, &mut aux, n, m, id);
+                let res = guarded(|| match kind { 0 => forge_last_r(&f, &mut aux), 1 => forge_t2(&f, &mut aux), 2 => forge_a(&f, &mut aux), _ => forge_s(&f, &mut aux) });
+                if let Err(e) = res { println!("{}", json!({"k": "forge", "kind": kind, "n": n, "m": m, "error": e})); }
+                id += 1;
+            }
+        }
+        for &n in &[2usize, 4, 16, 64] { forge_ipa_alone(&mut r, &mut aux, n, id); id += 1; }
+    }
+}
+
 // ------------------------------------------------------------------ range driver
 fn range(seed: u64, tier: u64) {
     let mut r = Rng::new(seed ^ 0xA11);
@@ -692,6 +1024,7 @@ fn main() {
         "derived" => derived(seed, n),
         "sets" => sets(seed, n, a.get(4).map(|s| s == "full").unwrap_or(false)),
         "ipa" => ipa(seed, n),
+        "attacks" => attacks(seed, n),
         "mulcheck" => mulcheck(),
         _ => panic!("mode"),
     }
